@@ -684,7 +684,7 @@ theorem C08_custom_frozen (b : VB) (c : Custom) (hff : b.failFast = true) (he : 
     recorded -/
 theorem C08_custom_spec (b : VB) (c : Custom) (hf : b.frozen = false) :
     (c.values = [] → customStep b c = ((if c.must then b.addErr else b), c.init))
-    ∧ (c.values ≠ [] → customStep b c = ({ b with errors := b.errors + c.errs }, c.result)) := by
+    ∧ (c.values ≠ [] → customStep b c = (b.addCustom c.errs, c.result)) := by
   constructor <;> intro h <;> simp [customStep, hf, h]
 
 theorem customStep_mono (b : VB) (c : Custom) :
@@ -694,7 +694,8 @@ theorem customStep_mono (b : VB) (c : Custom) :
   · exact ⟨Nat.le_refl _, rfl⟩
   · split
     · split <;> simp [VB.addErr]
-    · simp
+    · unfold VB.addCustom
+      split <;> simp
 
 /-- ops that bind a parameter -/
 def Op.isBinding : Op → Bool
@@ -809,6 +810,55 @@ theorem C08_errLoop_eq (ext : Ext) (e : Elem) :
       | false =>
         simp only [Bool.false_eq_true, if_false]
         rw [ih b.addErr (by rw [hfr, hff])]
+
+/-! ### whitespace-only text, and an `ErrorFunc` that returns nil (round 7) -/
+
+/-- text that starts with a byte which is neither a digit nor a sign is never a number -/
+theorem bindNum_bad_first (d : Dest) (c : Char) (cs : List Char) (hd : digit? c = none)
+    (hs : c ≠ '+' ∧ c ≠ '-') : bindNum d (c :: cs) = none := by
+  have hu : ∀ bits, parseUint (c :: cs) bits = none := by
+    intro bits
+    simp [parseUint, puLoop, hd]
+  unfold bindNum
+  cases d.signed
+  · simp [hu]
+  · simp [parseInt, hs.1, hs.2, hu]
+
+/-- **C08_blank_text_is_an_error** — "empty counts as absent" means exactly the empty string: an
+    unfrozen scalar call whose text is not empty but begins with a blank (space, tab, line feed,
+    carriage return — in particular text that is blank as a whole) records exactly one error and
+    leaves an integer destination alone, for `Must` and non-`Must` methods alike -/
+theorem C08_blank_text_is_an_error (ext : Ext) (b : VB) (c : Call) (d : Dest) (hs : c.shape = .scalar)
+    (he : c.elem = .num d) (hf : b.frozen = false) (x : Char) (rest : List Char)
+    (hv : c.values.headD [] = x :: rest) (hx : x = ' ' ∨ x = '\t' ∨ x = '\n' ∨ x = '\r') :
+    callStep ext b c = (b.addErr, c.init) := by
+  have hbad : bindNum d (x :: rest) = none := by
+    apply bindNum_bad_first
+    · rcases hx with rfl | rfl | rfl | rfl <;> decide
+    · rcases hx with rfl | rfl | rfl | rfl <;> decide
+  unfold callStep
+  simp only [hs, scalarCall, hf, Bool.false_eq_true, if_false, hv, he, parseElem, hbad]
+  simp
+
+/-- **C08_setError_records_nil** — whatever the application's `ErrorFunc` returns (nil included),
+    a failed conversion is recorded: the error count grows by one, so the fail-fast test and the
+    slice guard `b.errors == nil` see it; only `BindError()` depends on what was returned -/
+theorem C08_setError_records_nil (b : VB) :
+    b.addErr.errors = b.errors + 1 ∧ b.addErr.frozen = b.failFast ∧ b.addErr.failFast = b.failFast
+    ∧ b.addErr.efNil = b.efNil := by
+  refine ⟨rfl, ?_, rfl, rfl⟩
+  simp [VB.frozen, VB.addErr]
+
+/-- the round-1 … round-5 theorems quantify over every `VB`, hence over both kinds of `ErrorFunc`;
+    spelled out for the clause the nil-returning one endangers: with ANY `ErrorFunc`, after a
+    failing binding op of a fail-fast binder every later binding op is untouched -/
+theorem C08_any_errorfunc_nothing_after_error (ext : Ext) (n : Nat) (en fn : Bool)
+    (pre post : List Op) (o : Op) (hpre : ∀ x ∈ pre, x.isBinding = true) (ho : o.isBinding = true)
+    (hpost : ∀ x ∈ post, x.isBinding = true)
+    (herr : (vbStep ext (vbEnd ext ⟨n, true, en, fn⟩ pre) o).1.errors ≠ 0) :
+    vbRun ext ⟨n, true, en, fn⟩ (pre ++ o :: post)
+      = vbRun ext ⟨n, true, en, fn⟩ pre ++ (vbStep ext (vbEnd ext ⟨n, true, en, fn⟩ pre) o).2 :: post.map Op.untouched :=
+  C08_failfast_nothing_after_error_ops ext ⟨n, true, en, fn⟩ rfl pre post o hpre ho hpost herr
 
 /-! ### the constructors' default (round 5) -/
 
@@ -1206,18 +1256,18 @@ def exSlice : Call := ⟨.num (.vbInts .w16), .delim, false, true, [['1',',','-'
 def exSliceBad : Call := ⟨.num (.vbInts .w16), .delim, false, true, [['1',',','x'], ['3']], [','], .slice none⟩
 
 -- C08_error_leaves_dest: hypothesis satisfiable
-example : (callStep noExt ⟨0, true⟩ exBad).1.errors ≠ (⟨0, true⟩ : VB).errors := by decide
-example : callStep noExt ⟨0, true⟩ exBad = (⟨1, true⟩, .scalar (.int 7)) := by decide
-example : callStep noExt ⟨0, true⟩ exGood = (⟨0, true⟩, .scalar (.int 127)) := by decide
+example : (callStep noExt (vb 0 true) exBad).1.errors ≠ ((vb 0 true) : VB).errors := by decide
+example : callStep noExt (vb 0 true) exBad = ((vb 1 true), .scalar (.int 7)) := by decide
+example : callStep noExt (vb 0 true) exGood = ((vb 0 true), .scalar (.int 127)) := by decide
 -- C08_failfast_frozen / chain: a valid call after an error writes nothing
-example : vbRun noExt ⟨0, true⟩ [.call exBad, .call exGood, .bindError, .call exGood]
+example : vbRun noExt (vb 0 true) [.call exBad, .call exGood, .bindError, .call exGood]
     = [.call (.scalar (.int 7)) 1, .call (.scalar (.int 7)) 0, .err true, .call (.scalar (.int 127)) 0] := by decide
 -- without fail-fast the later call still binds and errors accumulate
-example : vbRun noExt ⟨0, false⟩ [.call exBad, .call exGood, .call exSliceBad, .bindErrors]
+example : vbRun noExt (vb 0 false) [.call exBad, .call exGood, .call exSliceBad, .bindErrors]
     = [.call (.scalar (.int 7)) 1, .call (.scalar (.int 127)) 0, .call (.slice none) 1, .errs 2] := by decide
 -- C08_slice_all_or_nothing: both alternatives occur
-example : callStep noExt ⟨0, true⟩ exSlice = (⟨0, true⟩, .slice (some [.int 1, .int (-2), .int 3])) := by decide +kernel
-example : callStep noExt ⟨0, true⟩ exSliceBad = (⟨1, true⟩, .slice none) := by decide
+example : callStep noExt (vb 0 true) exSlice = ((vb 0 true), .slice (some [.int 1, .int (-2), .int 3])) := by decide +kernel
+example : callStep noExt (vb 0 true) exSliceBad = ((vb 1 true), .slice none) := by decide
 -- struct binder: first error aborts, later fields keep what they held; empty text is zero
 example : structBind noExt [⟨.scalar, .num (.structInt .w8), .one (.int 0), some [['1','2','7']]⟩,
       ⟨.ptr, .num (.structUint .w16), .nil, some [['6','5','5','3','6']]⟩, ⟨.slice, .bool, .nil, some [['t']]⟩]
@@ -1249,34 +1299,34 @@ def exTimes : Call := ⟨.time 0, .slice, true, true, [['a'], ['b']], [], .slice
 def exTimesBad : Call := ⟨.time 0, .slice, true, true, [['a'], ['x'], ['b']], [], .slice (some [.opq ['9']])⟩
 
 -- Time: a failing call leaves the destination, a good one stores what time.Parse returned
-example : callStep exExt ⟨0, true⟩ exTimeBad = (⟨1, true⟩, .scalar (.opq ['0'])) := by decide +kernel
-example : callStep exExt ⟨0, true⟩ exTimeGood = (⟨0, true⟩, .scalar (.opq ['1'])) := by decide +kernel
+example : callStep exExt (vb 0 true) exTimeBad = ((vb 1 true), .scalar (.opq ['0'])) := by decide +kernel
+example : callStep exExt (vb 0 true) exTimeGood = ((vb 0 true), .scalar (.opq ['1'])) := by decide +kernel
 -- Times: all or nothing; fail-fast stops at the first bad element, otherwise every bad one is counted
-example : callStep exExt ⟨0, true⟩ exTimes = (⟨0, true⟩, .slice (some [.opq ['1'], .opq ['2']])) := by decide +kernel
-example : callStep exExt ⟨0, true⟩ exTimesBad = (⟨1, true⟩, .slice (some [.opq ['9']])) := by decide +kernel
-example : callStep exExt ⟨0, false⟩ { exTimesBad with values := [['x'], ['a'], ['x']] }
-    = (⟨2, false⟩, .slice (some [.opq ['9']])) := by decide +kernel
+example : callStep exExt (vb 0 true) exTimes = ((vb 0 true), .slice (some [.opq ['1'], .opq ['2']])) := by decide +kernel
+example : callStep exExt (vb 0 true) exTimesBad = ((vb 1 true), .slice (some [.opq ['9']])) := by decide +kernel
+example : callStep exExt (vb 0 false) { exTimesBad with values := [['x'], ['a'], ['x']] }
+    = ((vb 2 false), .slice (some [.opq ['9']])) := by decide +kernel
 -- MustTimes without the parameter
-example : callStep exExt ⟨0, true⟩ { exTimes with values := [] } = (⟨1, true⟩, .slice none) := by decide +kernel
+example : callStep exExt (vb 0 true) { exTimes with values := [] } = ((vb 1 true), .slice none) := by decide +kernel
 
 /-- a user function that would store both values and return two errors -/
 def exCustom : Custom := ⟨false, [['p'], ['q']], .slice none, .slice (some [.opq ['p'], .opq ['q']]), 2⟩
 
 -- CustomFunc: invoked once, both errors recorded; after that (fail-fast) neither a typed call nor
 -- another CustomFunc does anything; BindErrors reports 2
-example : vbRun exExt ⟨0, true⟩ [.custom exCustom, .call exTimeGood, .custom exCustom, .bindErrors]
+example : vbRun exExt (vb 0 true) [.custom exCustom, .call exTimeGood, .custom exCustom, .bindErrors]
     = [.call (.slice (some [.opq ['p'], .opq ['q']])) 2, .call (.scalar (.opq ['0'])) 0, .call (.slice none) 0, .errs 2] := by
   decide +kernel
 -- absent parameter: not invoked; MustCustomFunc records one error
-example : customStep ⟨0, true⟩ { exCustom with values := [], must := true } = (⟨1, true⟩, .slice none) := by decide
-example : customStep ⟨0, true⟩ { exCustom with values := [] } = (⟨0, true⟩, .slice none) := by decide
+example : customStep (vb 0 true) { exCustom with values := [], must := true } = ((vb 1 true), .slice none) := by decide
+example : customStep (vb 0 true) { exCustom with values := [] } = ((vb 0 true), .slice none) := by decide
 -- hypotheses of C08_failfast_nothing_after_error_ops hold for a chain with a CustomFunc in the middle
-example : (vbStep exExt (vbEnd exExt ⟨0, true⟩ [.call exTimeGood]) (.custom exCustom)).1.errors ≠ 0 := by decide +kernel
+example : (vbStep exExt (vbEnd exExt (vb 0 true) [.call exTimeGood]) (.custom exCustom)).1.errors ≠ 0 := by decide +kernel
 -- the literal loop of `times` and the shared loop agree on an unfrozen binder, and differ on a
 -- frozen one (which the method never enters)
-example : errLoop exExt (.time 0) ⟨0, true⟩ [['a'], ['x'], ['b']] = sliceLoop exExt (.time 0) ⟨0, true⟩ [['a'], ['x'], ['b']] := by
+example : errLoop exExt (.time 0) (vb 0 true) [['a'], ['x'], ['b']] = sliceLoop exExt (.time 0) (vb 0 true) [['a'], ['x'], ['b']] := by
   decide +kernel
-example : errLoop exExt (.time 0) ⟨1, true⟩ [['a']] ≠ sliceLoop exExt (.time 0) ⟨1, true⟩ [['a']] := by decide +kernel
+example : errLoop exExt (.time 0) (vb 1 true) [['a']] ≠ sliceLoop exExt (.time 0) (vb 1 true) [['a']] := by decide +kernel
 
 -- struct binder, multi-value destination: all values are handed over; `!` rejects; an EMPTY value
 -- list does not panic there (it does for an ordinary field)
@@ -1311,5 +1361,22 @@ example : structBind exNamed [⟨.scalar, .named 0, .one (.opq ['7']), some [[]]
 example : vbRun noExt (newBinder .form) [.call exBad, .call exGood, .bindErrors]
     = [.call (.scalar (.int 7)) 1, .call (.scalar (.int 7)) 0, .errs 1] := by decide +kernel
 example : (vbStep noExt (vbEnd noExt (newBinder .form) []) (.call exBad)).1.errors ≠ 0 := by decide +kernel
+
+-- round 7 --------------------------------------------------------------------------------------
+
+def exBlank : Call := ⟨.num (.vbInt .w32 false), .scalar, false, true, [[' ']], [], .scalar (.int 7)⟩
+
+-- `?v=%20` through the non-Must method Int32: an error, not "absent"
+example : callStep noExt (vb 0 true) exBlank = (vb 1 true, .scalar (.int 7)) := by decide +kernel
+example : callStep noExt (vb 0 true) { exBlank with values := [['\t', '\n']] } = (vb 1 true, .scalar (.int 7)) := by decide +kernel
+example : callStep noExt (vb 0 true) { exBlank with values := [[]] } = (vb 0 true, .scalar (.int 7)) := by decide +kernel
+-- an ErrorFunc that returns nil: the failing call is still counted, the next call is frozen, the
+-- slice call does not store its temporary; BindError() hands out the nil, BindErrors() has 1 entry
+example : vbRun noExt ⟨0, true, true, false⟩ [.call exBad, .call exGood, .call exSliceBad, .bindError]
+    = [.call (.scalar (.int 7)) 1, .call (.scalar (.int 7)) 0, .call (.slice none) 0, .err false] := by decide +kernel
+example : vbRun noExt ⟨0, false, true, false⟩ [.call exSliceBad, .call exSlice, .bindErrors]
+    = [.call (.slice none) 1, .call (.slice none) 0, .errs 1] := by decide +kernel
+-- default ErrorFunc for comparison
+example : vbRun noExt (vb 0 true) [.call exBad, .bindError] = [.call (.scalar (.int 7)) 1, .err true] := by decide +kernel
 
 end C08
